@@ -127,7 +127,7 @@ func runC07(c c07Case, rec *stat.Rec) *stat.Failure {
 	var inputLen int64
 	var in []byte
 	run := func() {
-		if c.Kind == "repeat" {
+		if c.Kind == "repeat" || c.Kind == "skipbig" {
 			src := &inst.RepeatSource{Prefix: c.Prefix, Unit: c.Unit, Count: c.Count, Suffix: c.Suffix}
 			inputLen = int64(len(c.Prefix)) + int64(len(c.Unit))*int64(c.Count) + int64(len(c.Suffix))
 			o = c07Read(c, src, src.Consumed)
@@ -145,7 +145,18 @@ func runC07(c c07Case, rec *stat.Rec) *stat.Failure {
 	}
 	desc := fmt.Sprintf("kind %s, %d input bytes, concurrency %d, writeto=%v sizes=%v", c.Kind, inputLen, c.Conc, c.WriteTo, c.Sizes)
 	if c.Kind == "repeat" {
-		desc += fmt.Sprintf(", prefix % x, unit % x x %d", c.Prefix, c.Unit, c.Count)
+		u := c.Unit
+		if len(u) > 8 {
+			u = u[:8]
+		}
+		desc += fmt.Sprintf(", prefix % x, unit % x.. x %d", c.Prefix, u, c.Count)
+	}
+	if c.Kind == "skipbig" {
+		// the announced bytes are all there: exactly they must be skipped, then the empty frame read to a clean end
+		if o.err != nil || len(o.out) != 0 || o.consumed != inputLen {
+			return stat.Failf("C07/huge-skippable-frame-not-skipped-exactly", "skippable length %d present in full, then an empty frame: reader returned %v after consuming %d of %d bytes", inputLen-8-11, o.err, o.consumed, inputLen)
+		}
+		rec.Class("skippable/huge-skipped-exactly")
 	}
 	switch verdict {
 	case "deadlock":
@@ -165,7 +176,7 @@ func runC07(c c07Case, rec *stat.Rec) *stat.Failure {
 	}
 	// (cumulative allocation is proportional to the number of blocks - each block legitimately takes pooled buffers of the
 	// block maximum - so the meter is only meaningful for the short inputs, which are the ones that carry hostile length fields)
-	if bound := c07AllocBound(inputLen, c.Conc); c.Kind != "repeat" && o.alloc > bound {
+	if bound := c07AllocBound(inputLen, c.Conc); c.Kind != "repeat" && c.Kind != "skipbig" && o.alloc > bound {
 		return stat.Failf("C07/allocation-proportional-to-attacker-controlled-field/"+mode, "%s: %d bytes allocated while decoding (bound %d)", desc, o.alloc, bound)
 	}
 	// first-word classification
@@ -209,7 +220,7 @@ func runC07(c c07Case, rec *stat.Rec) *stat.Failure {
 	} else {
 		rec.Class("outcome/error")
 	}
-	past := c.Kind == "repeat" || c.Kind == "skippable"
+	past := c.Kind == "repeat" || c.Kind == "skipbig" || c.Kind == "skippable"
 	if len(in) >= 4 {
 		w := uint32(in[0]) | uint32(in[1])<<8 | uint32(in[2])<<16 | uint32(in[3])<<24
 		if isMagic(w) {
@@ -402,6 +413,20 @@ func TestC07Deep(t *testing.T) {
 		{Kind: "repeat", Unit: []byte{0x50, 0x2A, 0x4D, 0x18, 1, 0, 0, 0, 0xAA}, Count: 12000000, Suffix: append(append([]byte{}, frameHdr...), 0, 0, 0, 0), Conc: 1, WriteTo: true},
 		{Kind: "repeat", Prefix: []byte{0x02, 0x21, 0x4C, 0x18}, Unit: []byte{1, 0, 0, 0, 0}, Count: 12000000, Conc: 1, Sizes: []int{4096}},
 		{Kind: "repeat", Prefix: frameHdr, Unit: []byte{0, 0, 0, 0x80}, Count: 200000, Suffix: []byte{0, 0, 0, 0}, Conc: 4, Sizes: []int{65536}},
+	}
+	// legacy blocks just above 8 MiB (up to the compression bound the Reader accepts), stored raw or "compressed", payload present
+	le := func(v uint32) []byte { return []byte{byte(v), byte(v >> 8), byte(v >> 16), byte(v >> 24)} }
+	for _, size := range []uint32{8<<20 + 1, 8<<20 + 32912, 8<<20 + 32913, 8 << 20} {
+		for _, rawBit := range []uint32{0x80000000, 0} {
+			for _, wt := range []bool{false, true} {
+				cases = append(cases, c07Case{Kind: "repeat", Prefix: append(append([]byte{}, legacyMagic...), le(size|rawBit)...), Unit: []byte{0x41}, Count: int(size), Suffix: le(5), Conc: 1, WriteTo: wt, Sizes: []int{65536}})
+			}
+		}
+	}
+	// a skippable frame that announces - and carries - almost 4 GiB, followed by an empty frame
+	big := make([]byte, 1<<20)
+	for _, n := range []uint32{0xFFFFFFFF, 0xFFFF0001, 0xFFFF0000} {
+		cases = append(cases, c07Case{Kind: "skipbig", Prefix: append([]byte{0x53, 0x2A, 0x4D, 0x18}, le(n)...), Unit: big, Count: int(n >> 20), Suffix: append(append(make([]byte, n&(1<<20-1)), frameHdr...), 0, 0, 0, 0), Conc: 1, Sizes: []int{65536}})
 	}
 	for _, c := range cases {
 		pinned(t, "C07", "C07/reader", c, runC07)
